@@ -46,6 +46,10 @@ pub struct RunCfg {
     /// worker: `core_modules()` only, I/O builtins registered for their signature)
     #[serde(default)]
     pub io_signatures_only: bool,
+    /// the REPL client keeps its session after a runtime error (quiver-web's glue) instead of starting
+    /// a fresh one (quiver-cli): the next line resumes the failed process
+    #[serde(default)]
+    pub keep_session_after_error: bool,
 }
 
 impl RunCfg {
@@ -62,6 +66,7 @@ impl RunCfg {
             max_steps: 200_000,
             flush_subscriptions: false,
             io_signatures_only: false,
+            keep_session_after_error: false,
         }
     }
 }
